@@ -201,7 +201,8 @@ func (c *Ctx) c17Rel(name, q1, q2 string, d *TV, a, b string, cls string) {
 
 // ---------- block A: Count / Any / First / Last / Index / AsArray over every length and every index ----------
 
-var c17OddIndexes = []string{"0.5", "1.5", "-0.5", "1e30", "18446744073709551617"}
+// 1e64, 3e70 and 1e100 are multiples of 2^64: an index taken modulo 2^64 would land on element 0
+var c17OddIndexes = []string{"0.5", "1.5", "-0.5", "1e30", "18446744073709551617", "1e64", "3e70", "1e100", "-1e64"}
 
 func c17ElementBlock(c *Ctx) {
 	r := c.R
@@ -279,6 +280,18 @@ func c17ElementBlock(c *Ctx) {
 				d2 := tvMap("str", [][2]any{{hx("xs"), arr}, {hx("i"), tvInt("int", fmt.Sprint(i))}, {hx("j"), tvF64(float64(ln))}})
 				c.Do(Case{Q: "$.xs.Index($.i)", D: d2, XK: "logical", X: logicalDoc(doc.A[i]), Cls: "Index-path-argument/" + cls, InDomain: true})
 				c.Do(Case{Q: "$.xs.Index($.j)", D: d2, XK: "logical", X: "ERR", Cls: "Index-path-argument/" + cls, InDomain: true})
+				// exact huge indexes (a literal goes through float64; a decimal or a numeric string in the data does not):
+				// 2^64+i and -2^64+i are congruent to the in-range index i modulo 2^64, 2^63 is the first int64 overflow
+				two64 := new(big.Int).Lsh(big.NewInt(1), 64)
+				for hi, h := range []*big.Int{new(big.Int).Add(two64, big.NewInt(int64(i))), new(big.Int).Add(new(big.Int).Neg(two64), big.NewInt(int64(i))),
+					new(big.Int).Lsh(big.NewInt(1), 63), new(big.Int).Add(new(big.Int).Mul(two64, big.NewInt(3)), big.NewInt(int64(i)))} {
+					hv := &TV{T: "dec", C: h.String(), E: "0"}
+					if hi%2 == 1 {
+						hv = tvStr(h.String())
+					}
+					d3 := tvMap("str", [][2]any{{hx("xs"), arr}, {hx("h"), hv}})
+					c.Do(Case{Q: "$.xs.Index($.h)", D: d3, XK: "logical", X: "ERR", Cls: "Index-huge-exact-path-argument/" + cls, InDomain: true})
+				}
 			}
 		}
 	}
@@ -787,7 +800,7 @@ func c17AggregateBlock(c *Ctx) {
 }
 
 func genC17(c *Ctx) {
-	c.Rule = "block A, enumerated completely: every length 0..12 x element kind (numbers, non-numeral strings, booleans, objects, arrays, mixed, and numeral strings as a separate class) x 10 carriers ([]any of float64, []any of mixed number carriers, typed slices of float64 / int / decimal.Decimal / named types, [n]any, typed Go arrays, (typed slices of) StructOf structs, pointers to numbers and objects) plus empty typed and nil slices, under a map key, at the root and in a struct field; queries Count, Any, AsArray (of the array and of one element), First, Last, Index(i) for every i in -2..len+2, fractional and huge indexes (0.5, 1.5, -0.5, 1e30, 18446744073709551617), Index(1.0), Index given as a path; element values are random. Expected: length, length>0, [input], the element of the logical document at 0 / len-1 / i compared by logical value (numbers by value), ERR when the index is outside 0..len-1, fractional, or the array is empty. A numeral-string element is returned as that string. Identities First≡Index(0) and Last≡Index(Count-1) on the implementation's own answers. Block B (random): Select with key, identity, function, filter and nested-Select sub-queries on arrays (length 0..12) of objects, numbers, arrays, strings, bools in a random carrier; expected = concatenation over the elements of the sub-query's value computed from the document, array values spread one level; then Count/Last/Index on the selection. Block C (random): `$.v.AnyOf(args)` with 0..4 arguments (mostly 1..4) drawn from literals, scalar paths, array paths (spread), nested array paths and `@`; expected true iff the input equals (numbers by value, strings and bools by ==, different kinds never) one of the spread arguments; arguments are biased towards the input so both answers are frequent; numeral strings anywhere put the case outside the domain. Block D (random): rectangular arrays (length 1..12) of objects with numeric field k: Sum/Average/Minimum/Maximum over `$.xs.k`, over `$.xs.Select(\"$.k\")` and over the plain array of the same values, each against the value computed from the document (Average: rounded half away from zero at 16 places) and against each other. distinct = distinct (query skeleton, data shape to depth 2, outcome class); non-trivial = outcome class is not the most common one"
+	c.Rule = "block A, enumerated completely: every length 0..12 x element kind (numbers, non-numeral strings, booleans, objects, arrays, mixed, and numeral strings as a separate class) x 10 carriers ([]any of float64, []any of mixed number carriers, typed slices of float64 / int / decimal.Decimal / named types, [n]any, typed Go arrays, (typed slices of) StructOf structs, pointers to numbers and objects) plus empty typed and nil slices, under a map key, at the root and in a struct field; queries Count, Any, AsArray (of the array and of one element), First, Last, Index(i) for every i in -2..len+2, fractional and huge indexes (0.5, 1.5, -0.5, 1e30, 18446744073709551617, the multiples of 2^64 1e64 / 3e70 / 1e100, and exact 2^64+i, -2^64+i, 2^63, 3*2^64+i given as a decimal or numeric string through a path), Index(1.0), Index given as a path; element values are random. Expected: length, length>0, [input], the element of the logical document at 0 / len-1 / i compared by logical value (numbers by value), ERR when the index is outside 0..len-1, fractional, or the array is empty. A numeral-string element is returned as that string. Identities First≡Index(0) and Last≡Index(Count-1) on the implementation's own answers. Block B (random): Select with key, identity, function, filter and nested-Select sub-queries on arrays (length 0..12) of objects, numbers, arrays, strings, bools in a random carrier; expected = concatenation over the elements of the sub-query's value computed from the document, array values spread one level; then Count/Last/Index on the selection. Block C (random): `$.v.AnyOf(args)` with 0..4 arguments (mostly 1..4) drawn from literals, scalar paths, array paths (spread), nested array paths and `@`; expected true iff the input equals (numbers by value, strings and bools by ==, different kinds never) one of the spread arguments; arguments are biased towards the input so both answers are frequent; numeral strings anywhere put the case outside the domain. Block D (random): rectangular arrays (length 1..12) of objects with numeric field k: Sum/Average/Minimum/Maximum over `$.xs.k`, over `$.xs.Select(\"$.k\")` and over the plain array of the same values, each against the value computed from the document (Average: rounded half away from zero at 16 places) and against each other. distinct = distinct (query skeleton, data shape to depth 2, outcome class); non-trivial = outcome class is not the most common one"
 	c17ElementBlock(c)
 	c.Exhaustive = true
 	c17SelectBlock(c)
